@@ -10,6 +10,7 @@ CONSTANTS
   Reconnect <- TraceReconnect
   AllowStop = TRUE
   AllowCancel = TRUE
+  AllowHalf = FALSE
   MaxAttempts = 100000
   FixExitOrder = TRUE
   FixReadErr = TRUE
